@@ -6,6 +6,10 @@ VERIF = os.path.dirname(os.path.dirname(os.path.abspath(__file__)))
 props = [json.loads(l) for l in open(os.path.join(VERIF, "properties.jsonl"))]
 
 CLAIMS = {
+ "C17": dict(
+  text="Proved in Coq for marshalled states of any size and nesting: with distinct function ids and code ids (what the compiler produces, checked on every real state) codeFromState's lookups link every function constant to its own code object and every code object to its parent again, and the repaired rule recomputes the named flag exactly (the pre-repair rule is refuted by a function called __main__). The extracted relinking is run on the real definitions of every program and compared with what UnmarshalCode rebuilt. The oracle marshals twice, unmarshals, re-marshals and evaluates original and reloaded code side by side for the programs of the C01/C02 generators and the corpus.",
+  note="Trusted: Coq kernel, extraction, harness; encoding/json's verbatim transport of numbers, valid UTF-8 strings and arrays is assumed (and exercised by the byte-equality oracle). Known finding: string constants that are not valid UTF-8.",
+  technique="Rocq lookup/uniqueness theorems on the flat state + extracted-model correspondence + round-trip oracle", ref="DESIGN.md section 5 C17"),
  "C03": dict(
   text="Crash-isolated differential fuzzing of the embedding API (parser.Parse, error renderers, Program.String, compiler.Compile, risor.Eval with the default globals, host-side Inspect/Interface/Equals/HashKey) on token soup, single-token mutants, truncations and hostile scripts, in child processes under a memory limit and a watchdog: an escaping Go panic, a dead child or a hang is a violation with the input as replay. Proved in Coq: the natively recursive object traversals (Equals, and the item visitors Inspect/Interface/MarshalJSON) terminate on every acyclic heap within a rank-bounded depth, and diverge for every fuel on the cyclic witness (the known finding). The lexer/parser/compiler/VM models of C01/C20 carry the outcome-class correspondence for the same inputs.",
   note="Trusted: Coq kernel, harness, watchdog limits. Native stack size, memory exhaustion and Go's recover semantics are runtime facts; the traversal model abstracts object/list.go (lists of ints and references). Panic-freedom of the parser/compiler is not a theorem: it is searched for by the fuzz streams (which found and led to the repair of four parser defects). Known finding: cyclic containers.",
